@@ -114,7 +114,7 @@ PROPS['C18'] = dict(
     assumptions=[],
 )
 PROPS['C20'] = dict(
-    prop_modules=['Vise.Props.C20'], lean_targets=['Vise.Props.C20'], suites=['engine'],
+    prop_modules=['Vise.Props.C20', 'Vise.Props.C20Unwind'], lean_targets=['Vise.Props.C20', 'Vise.Props.C20Unwind'], suites=['engine'],
     compare={'engine': eng(['x', 'c', 'f', 'o', 'fin', 'p', 'fl', 'fr', 'cd'])},
     trusted=ENGINE_TRUSTED, assumptions=["engines without a `first` function (with one, blocked requests deliver the stale exit value: known finding)"],
 )
